@@ -354,7 +354,13 @@ func (cx *Ctx) unfoldRecDefs(terms []*Term, fuel int) ([]*Term, error) {
 	seen := map[string]bool{}
 	var eqs []*Term
 	frontier := terms
-	for round := 0; round < fuel; round++ {
+	maxRounds := fuel
+	for _, d := range cx.unfoldDepth {
+		if d > maxRounds {
+			maxRounds = d
+		}
+	}
+	for round := 0; round < maxRounds; round++ {
 		var apps []*Term
 		for _, t := range frontier {
 			cx.collectApps(t, map[string]bool{}, seen, &apps)
@@ -365,7 +371,15 @@ func (cx *Ctx) unfoldRecDefs(terms []*Term, fuel int) ([]*Term, error) {
 		sort.Slice(apps, func(i, j int) bool { return apps[i].String() < apps[j].String() })
 		var next []*Term
 		for _, a := range apps {
-			rd := cx.spec.recdefs[a.Op]
+			base, epoch := epochOf(a.Op)
+			depth := fuel
+			if d, ok := cx.unfoldDepth[base]; ok {
+				depth = d
+			}
+			if round >= depth {
+				continue
+			}
+			rd := cx.spec.recdefs[base]
 			vars := map[string]*Term{}
 			for i, p := range rd.Params {
 				_, gt := cx.ResolveType(p.Type)
@@ -376,7 +390,7 @@ func (cx *Ctx) unfoldRecDefs(terms []*Term, fuel int) ([]*Term, error) {
 				vars[p.Name] = arg
 			}
 			cx.inTree++
-			env := &Env{cx: cx, st: cx.tree, old: nil, vars: vars}
+			env := &Env{cx: cx, st: cx.treeFor(epoch), old: nil, vars: vars, epoch: epoch}
 			body, err := env.Eval(rd.Body)
 			cx.inTree--
 			if err != nil {
@@ -385,8 +399,7 @@ func (cx *Ctx) unfoldRecDefs(terms []*Term, fuel int) ([]*Term, error) {
 			if body.Sort != a.Sort {
 				return nil, fmt.Errorf("unfolding %s: body sort %s, declared %s", rd.Name, body.Sort, a.Sort)
 			}
-			eq := Eq(a, body)
-			eqs = append(eqs, eq)
+			eqs = append(eqs, Eq(a, body))
 			next = append(next, body)
 		}
 		frontier = next
@@ -412,7 +425,8 @@ func (cx *Ctx) collectApps(t *Term, bound map[string]bool, seen map[string]bool,
 	for _, a := range t.Args {
 		cx.collectApps(a, bound, seen, out)
 	}
-	if _, ok := cx.spec.recdefs[t.Op]; ok && len(t.Args) > 0 && (cx.unfoldOnly == nil || cx.unfoldOnly[t.Op]) {
+	base, _ := epochOf(t.Op)
+	if _, ok := cx.spec.recdefs[base]; ok && len(t.Args) > 0 && (cx.unfoldOnly == nil || cx.unfoldOnly[base]) {
 		if len(bound) > 0 {
 			syms := map[string]bool{}
 			collectSyms(t, map[string]bool{}, syms)
